@@ -203,7 +203,7 @@ def s7_check(ctx, prop_id, cases, extra_filter=None):
                 ctx.violations.append(('interface parameter of provider(s) %s satisfied by a type none of whose upstream providers is Loose for it (case %s)'
                                        % (vv['loose'], c.key), write_replay(ctx, 'case_%s.txt' % c.key, c.text()), True))
             if vv.get('loose_f5', '-') != '-':
-                if known_open('C01', 'loose_f5'):
+                if known_here('C01', 'loose_f5', c):
                     ctx.cov['known_finding_hits'] = ctx.cov.get('known_finding_hits', 0) + 1
                 else:
                     ctx.violations.append(('loose_f5: %s (case %s)' % (vv['loose_f5'], c.key), write_replay(ctx, 'case_%s.txt' % c.key, c.text()), True))
@@ -797,6 +797,20 @@ def known_open(prop_id, signature):
     return [k for k in load_known().get('open', []) if k.get('property') == prop_id and k.get('signature') == signature]
 
 
+def known_here(prop_id, signature, case):
+    """A listed finding accounts for what is seen on this case only if the implementation does on this case what the
+    model (the transcription in which the finding was analysed) does: where the include computation of the two differs,
+    something else is going on and the signature must not swallow it."""
+    k = known_open(prop_id, signature)
+    if not k:
+        return k
+    try:
+        st, _ = s5_compare(case)
+    except Exception:
+        st = 'skip'
+    return k if st != 'diff' else []
+
+
 def include_family(ctx, prop_id, checks, nontrivial, rule, extra=None, modes=(('run', None, 'default'),)):
     """shared driver for the properties decided on the include stage (S5):
     checks: list of (v5 key, ok value, message, known-finding signature or None)"""
@@ -831,11 +845,11 @@ def include_family(ctx, prop_id, checks, nontrivial, rule, extra=None, modes=(('
             if got is None:
                 continue
             if got != okval:
-                if sig and key == 'unjustified' and all(final_drop_signature(c, i) for i in got.split(',')) and known_open(prop_id, sig):
+                if sig and key == 'unjustified' and all(final_drop_signature(c, i) for i in got.split(',')) and known_here(prop_id, sig, c):
                     kf[sig] += 1
                     continue
                 if key == 'unjustified' and all(final_drop_signature(c, i) or up_shadow_signature(c, i) for i in got.split(',')) \
-                        and known_open(prop_id, 'unjustified_upshadow') and (known_open(prop_id, sig) or all(up_shadow_signature(c, i) for i in got.split(','))):
+                        and known_here(prop_id, 'unjustified_upshadow', c) and (known_here(prop_id, sig, c) or all(up_shadow_signature(c, i) for i in got.split(','))):
                     kf['unjustified_upshadow'] += 1
                     continue
                 ctx.violations.append(('%s: %s (case %s)' % (msg, got, c.key), write_replay(ctx, 'case_%s.txt' % c.key, c.text()), True))
@@ -876,7 +890,7 @@ def known_f5(prop_id, key):
     def f(ctx, c, kf):
         got = v5(c).get(key)
         if got and got != '-':
-            if known_open(prop_id, key):
+            if known_here(prop_id, key, c):
                 kf[key] += 1
             else:
                 ctx.violations.append(('%s: %s (case %s)' % (key, got, c.key), write_replay(ctx, 'case_%s.txt' % c.key, c.text()), True))
@@ -1005,7 +1019,7 @@ def pair_family(ctx, prop_id, mode, profile, n, kinds, rule, extra=None, also_s5
                     continue
                 if tk[2] == 'diff' and diff_known is not None:
                     sig = diff_known(c, l)
-                    if sig and known_open(prop_id, sig):
+                    if sig and known_here(prop_id, sig, c):
                         stats['known:' + sig] += 1
                         continue
                 stats[kind + '-' + tk[2]] += 1
@@ -1089,7 +1103,7 @@ def c14(ctx):
                                    % (mt, c.key), write_replay(ctx, 'case_%s.txt' % c.key, c.text()), True))
         mc = v5(c).get('mustconsume', '-')
         if mc != '-':
-            if known_open('C14', 'mustconsume_shadowed'):
+            if known_here('C14', 'mustconsume_shadowed', c):
                 stats['known:mustconsume_shadowed'] += 1
             else:
                 ctx.violations.append(('MustConsume provider(s) %s included although no running provider receives the value they produce (case %s)'
